@@ -176,7 +176,7 @@ example : ((sys (current 0)).run [.linkUp, .rx ⟨1, 1⟩, .rx ⟨2, 2⟩, .pop 
 
 /-- **With the per-start stop token** (`proposals/C06-dispatcher-leak`), for every schedule with any number of link losses and
 reconnects in which the link is not dropped while a dispatcher thread holds a message: never two active dispatcher threads. -/
-theorem reconnect_patched (cfg : Cfg) (hp : cfg.patched = true) (sched : List Step) (s : State)
+theorem reconnect_patched_partial (cfg : Cfg) (hp : cfg.patched = true) (sched : List Step) (s : State)
     (hr : ((sys cfg).pre quietDown).run sched = some s) :
     s.everTwo = false ∧ active s ≤ 1 ∧ live s ≤ 1 := by
   have inv : PatchInv s := Sys.inv_of_step ((sys cfg).pre quietDown) PatchInv (patch_init cfg)
@@ -185,17 +185,29 @@ theorem reconnect_patched (cfg : Cfg) (hp : cfg.patched = true) (sched : List St
     simp only [Disp.active]; simp at hd; simp [hd])) inv.one⟩
 
 /-- … and therefore messages are handed over once, one at a time, in arrival order, also after the link was lost and re-established -/
-theorem reconnect_in_order (cfg : Cfg) (hp : cfg.patched = true) (sched : List Step) (s : State)
+theorem reconnect_in_order_partial (cfg : Cfg) (hp : cfg.patched = true) (sched : List Step) (s : State)
     (hr : ((sys cfg).pre quietDown).run sched = some s) :
     s.arrived = s.handled.map (·.1) ++ held s ++ s.inbox
     ∧ s.delivered = (s.handled.filter (fun e => !e.2)).map (·.1)
     ∧ busy s ≤ 1 ∧ (held s).length + busy s ≤ 1 :=
-  once_in_order cfg sched s (Sys.pre_run _ _ _ _ hr) (reconnect_patched cfg hp sched s hr).1
+  once_in_order cfg sched s (Sys.pre_run _ _ _ _ hr) (reconnect_patched_partial cfg hp sched s hr).1
 
 /-- non-vacuity: two reconnects with traffic in between, patched: three dispatcher threads were created, one is live -/
 example : (((sys (patched 0)).pre quietDown).run [.linkUp, .rx ⟨1, 1⟩, .pop 0, .handle 0, .finish 0, .linkDown, .linkUp, .rx ⟨2, 2⟩,
       .pop 1, .handle 1, .finish 1, .linkDown, .linkUp, .rx ⟨3, 3⟩, .pop 2, .handle 2]).map
     (fun s => (s.delivered, s.disp.length, live s, s.everTwo)) = some ([⟨1, 1⟩, ⟨2, 2⟩, ⟨3, 3⟩], 3, 1, false) := by decide
+
+/-- **A new link starts at a frame boundary.**  Whatever part of an inbound frame had arrived when the link was lost is gone when the
+link is down (`_on_disconnected` clears the receive buffer), for every schedule and every configuration — so the bytes of the
+re-established link are framed on their own and `rx` (a complete frame decoded and queued) means the same before and after a reconnect. -/
+theorem fresh_link_framing (cfg : Cfg) (sched : List Step) (s : State) (hr : (sys cfg).run sched = some s) (hdown : s.up = false) :
+    s.stale = 0 :=
+  Sys.inv_of_step (sys cfg) FrameInv (frame_init cfg) (fun s i s' hi hs => frame_step cfg s s' i hi hs) sched s hr hdown
+
+/-- non-vacuity: 8 of 14 bytes of a frame arrive, the link drops and comes back; the next complete frame is delivered -/
+example : ((sys (current 0)).run [.linkUp, .rxPart 8, .linkDown, .linkUp, .rx ⟨5, 5⟩, .pop 0, .handle 0]).map
+    (fun s => (s.stale, s.delivered)) = some (0, [⟨5, 5⟩]) := by decide
+example : ((sys (current 0)).run [.linkUp, .rxPart 8]).map (fun s => s.stale) = some 8 := by decide
 
 /-! ## counterexamples -/
 
